@@ -10,7 +10,7 @@ Line driver of the C16 models.
 
 * `rockimg <slotSize> <nslots> <cells|-> <queries>`   a rock db image read from the real file after a crash
       cell   `slot,keyname,k0,k1,entrySize,payloadSize,version,firstSlot,nextSlot,meta,tag`   (or `slot,t`: truncated)
-      meta   `z` | `u` | `o.<keyname|none>.<sfs>.<flags>.<hdr>`
+      meta   `z` | `u` | `o.<keyname|none>.<sfs>.<flags>.<hdr>.<keyname of the URL|none>`
       query  `name:k0:k1`
   -> `rebuild=<ok|crash:..> name=<per-position model>/<whole-image model (C57)> ...`, each `M` or `H:tag+tag+...`
 * `ufsimg <records|-> <files|-> <queries>`   a ufs cache_dir after a crash
@@ -35,17 +35,20 @@ def intern (tbl : List String) (n : String) : List String × Nat :=
 
 /-! ### rock images -/
 
-def parseMeta (keys : List (String × Rock.Key)) (s : String) : Option Meta :=
-  if s == "z" then some .zeroed
-  else if s == "u" then some .unparsable
+def keyByName (keys : List (String × Rock.Key)) (kn : String) : Option Rock.Key :=
+  if kn == "none" then none
+  else match keys.lookup kn with
+    | some k => some k
+    | none => some (0, 1)        -- a key nobody asks for
+
+/-- -> (parse result, key whose URL the metadata names) -/
+def parseMeta (keys : List (String × Rock.Key)) (s : String) : Option (Meta × Option Rock.Key) :=
+  if s == "z" then some (.zeroed, none)
+  else if s == "u" then some (.unparsable, none)
   else match s.splitOn "." with
-    | ["o", kn, sfs, fl, hd] =>
+    | ["o", kn, sfs, fl, hd, un] =>
       match sfs.toNat?, fl.toNat?, hd.toNat? with
-      | some sfs, some fl, some hd =>
-        if kn == "none" then some (.ok none sfs fl hd)
-        else match keys.lookup kn with
-          | some k => some (.ok (some k) sfs fl hd)
-          | none => some (.ok (some (0, 1)) sfs fl hd)        -- a key nobody asks for
+      | some sfs, some fl, some hd => some (.ok (keyByName keys kn) sfs fl hd, keyByName keys un)
       | _, _, _ => none
     | _ => none
 
@@ -78,7 +81,7 @@ def wholeServe (cfg : Cfg) (nslots : Nat) (cells : List (Cell String)) (st : St)
       | some c0 =>
         match c0.md with
         | .ok (some mk) _ _ _ =>
-          if mk == k then "H:" ++ "+".intercalate (chain.map (fun s => match cells.find? (fun c => c.slot == s) with | some c => c.data | none => s!"e{s}"))
+          if mk == k && c0.url == some k then "H:" ++ "+".intercalate (chain.map (fun s => match cells.find? (fun c => c.slot == s) with | some c => c.data | none => s!"e{s}"))
           else "M"
         | _ => "M"
       | none => "M"
@@ -95,7 +98,7 @@ def handleRockImg (slotSize nslots : Nat) (cellsTok queriesTok : String) : Strin
     | fields => match parseCellFields fields with
       | some (_, slot, _, hdr, mt, tag) =>
         match parseMeta qs mt with
-        | some m => some (slot, some { slot := (slot : Int), hdr := hdr, md := m, data := tag })
+        | some (m, u) => some (slot, some { slot := (slot : Int), hdr := hdr, md := m, url := u, data := tag })
         | none => none
       | none => none)
   match parsed with
